@@ -336,6 +336,9 @@ def oracle(case, io):
     if stepe <= size + tol and stepn <= size + tol:
         covered = set(k for idx in wins for k in idx)
         lo_e, hi_e, lo_n, hi_n = east[0] - half, east[-1] + half, north[0] - half, north[-1] + half
+        # "the windows jointly cover the REGION": with adjust='region' the grid of centres may reach beyond the region (a centre interval of
+        # round-off width still gets two nodes one spacing apart), so a point on the region's own border can sit on the seam between two windows
+        lo_e, hi_e, lo_n, hi_n = max(lo_e, box[0]), min(hi_e, box[1]), max(lo_n, box[2]), min(hi_n, box[3])
         for k in range(len(es)):
             if lo_e + tol < es[k] < hi_e - tol and lo_n + tol < ns[k] < hi_n - tol and k not in covered:
                 return f"windows overlap (step <= size) but point {k} = ({es[k]}, {ns[k]}) of the covered region is in no window"
